@@ -679,6 +679,14 @@ E = Engine()
 def norm_note(x):
     if isinstance(x, (tuple, list)):
         return tuple(norm_note(y) for y in x)
+    if x is None or isinstance(x, str):
+        return x
+    if not isinstance(x, (int, float, Fraction)):
+        # objects differ by identity between the symbolic and the concrete run: compare kinds
+        import enum
+        if isinstance(x, enum.Enum):
+            return str(x)
+        return '<%s>' % type(x).__name__
     if isinstance(x, Fraction) and x.denominator == 1:
         return int(x)
     if isinstance(x, bool):
